@@ -333,19 +333,22 @@ def updateSym (name : String) (f : Symbol → Symbol) : CM Unit :=
     | some sym => { t with store := putSym name (f sym) t.store }
     | none => t
 
-/-- the loop of `SetParams` -/
-def setParamsLoop (pos : Pos) : List String → CM Unit
-  | [] => pure ()
-  | p :: rest => do
+/-- the loop of `SetParams`; `k` = number of parameters defined so far (at a duplicate `numParams`
+    is set back to it before the error is returned) -/
+def setParamsLoop (pos : Pos) : List String → Nat → CM Unit
+  | [], _ => pure ()
+  | p :: rest, k => do
     let s ← get
     let t ← headTable
-    if (lookupSym p t.store).isSome then cerr pos s!"\"{p}\" redeclared in this block"
+    if (lookupSym p t.store).isSome then do
+      modHead fun t => { t with numParams := k }
+      cerr pos s!"\"{p}\" redeclared in this block"
     else do
       let idx := nextIndex s.tables
       let sym : Symbol := { name := p, index := idx, scope := .local_ }
       modHead fun t => shadowBuiltin s.builtins p { t with numDefinition := t.numDefinition + 1, store := putSym p sym t.store }
       modTables (updateMaxDefs (idx + 1))
-      setParamsLoop pos rest
+      setParamsLoop pos rest (k + 1)
 
 /-- `SetParams(params…)` -/
 def setParams (pos : Pos) (params : List String) : CM Unit := do
@@ -356,7 +359,7 @@ def setParams (pos : Pos) (params : List String) : CM Unit := do
     else if t.disableParams then cerr pos "parameters disabled"
     else do
       modHead fun t => { t with numParams := params.length }
-      setParamsLoop pos params
+      setParamsLoop pos params 0
 
 def rootDisabled : List Table → List String
   | [] => []
